@@ -734,6 +734,63 @@ def rule_r13(prog, res) -> None:
         raise AnalysisError(f"C15.R13: only {n} functions with NotSet-defaulted parameters found, minimum 3")
 
 
+def rule_r14(prog, res) -> None:
+    """a restored configuration carries the discriminator it was stored with: when `from_dict` decides on a key of the
+    dictionary (`the_dict["method"] == custom`) and builds the object directly with the constructor, the constructor
+    parameter of that name is bound to that very value (or to the key itself) — left to its default, the restored
+    object says `linear` for custom edges, compares unequal to its origin, and the next to_dict / modify replaces the
+    edges by a generated grid.  Decided on the symbolic paths of every from_dict of the configuration classes."""
+    from .. import symx
+
+    n = 0
+    for ci in prog.classes:
+        if ci.module.name not in CONFIG_MODULES:
+            continue
+        fd, init = ci.methods.get("from_dict"), prog.find_method(ci, "__init__")
+        if fd is None or init is None or not fd.is_classmethod:
+            continue
+        dparam = next((q for q in fd.param_names()[1:]), None)
+        if dparam is None:
+            continue
+        iparams = [q.arg for q in [*init.node.args.posonlyargs, *init.node.args.args, *init.node.args.kwonlyargs]][1:]
+        res.touch(fd)
+        for p in symx.explore(prog, fd, inline=symx.inline_private_helpers(prog, public={"create", "modify", "from_dict", "to_dict"})):
+            if p.outcome != "return" or p.value is None:
+                continue
+            v = symx.strip_wrappers(p.value)
+            if not (isinstance(v, ast.Call) and isinstance(v.func, ast.Name) and v.func.id in ("cls", ci.name)):
+                continue
+            # keys of the dictionary that this path has compared with a constant (positively)
+            fixed = {}
+            for t, pol in p.literals():
+                for c in [x for x in ast.walk(t) if isinstance(x, ast.Compare) and len(x.ops) == 1 and isinstance(x.ops[0], ast.Eq)]:
+                    l = c.left
+                    key = None
+                    if isinstance(l, ast.Call) and isinstance(l.func, ast.Attribute) and l.func.attr in ("get", "pop") and isinstance(l.func.value, ast.Name) and l.func.value.id == dparam and l.args and isinstance(l.args[0], ast.Constant):
+                        key = l.args[0].value
+                    elif isinstance(l, ast.Subscript) and isinstance(l.value, ast.Name) and l.value.id == dparam and isinstance(l.slice, ast.Constant):
+                        key = l.slice.value
+                    if key is not None and key in iparams:
+                        # (a disjunction `key == C or …` that holds: the key is one way into this arm — the arm stands
+                        # for "the object is of kind C")
+                        if pol or isinstance(t, ast.BoolOp):
+                            fixed[key] = c.comparators[0]
+            for key, const in fixed.items():
+                n += 1
+                bound = kwarg(v, key)
+                if bound is None and key in iparams and iparams.index(key) < len(v.args):
+                    bound = v.args[iparams.index(key)]
+                site = res.site(fd, f"{key} on the arm {key} == {unparse(const)}")
+                if bound is None:
+                    res.violation("C15.R14", fd, p.node or fd.node, f"{ci.name}.from_dict enters this arm for {key} == {unparse(const)} but builds the object without passing {key}: the constructor default stands in, the restored configuration differs from the stored one (and from create with the same parameters)", key_extra=f"from-dict-{ci.name}-{key}-defaulted")
+                elif unparse(bound) == unparse(const) or symx.mentions(bound, lambda y: isinstance(y, ast.Constant) and y.value == key):
+                    res.ok("C15.R14", site, f"{key}={unparse(bound)[:40]} is handed to the constructor")
+                else:
+                    res.violation("C15.R14", fd, p.node or fd.node, f"{ci.name}.from_dict enters this arm for {key} == {unparse(const)} but constructs with {key}={unparse(bound)[:40]}", key_extra=f"from-dict-{ci.name}-{key}-other")
+    if n < 1:
+        raise AnalysisError("C15.R14: no from_dict arm that is selected by a key and builds the object directly was found")
+
+
 RULES = [
     ("C15.R1", rule_r1, QUICK),
     ("C15.R2", rule_r2, QUICK),
@@ -748,4 +805,5 @@ RULES = [
     ("C15.R11", rule_r11, QUICK),
     ("C15.R12", rule_r12, QUICK),
     ("C15.R13", rule_r13, QUICK),
+    ("C15.R14", rule_r14, QUICK),
 ]
